@@ -50,6 +50,18 @@ def run(res, args):
         streams.append((s, "end-of-input"))
     for s in tiny_exhaustive(6 if res.tier == "quick" else 7):
         streams.append((s, "tiny-exhaustive"))
+    # sizes around the longest possible frame (1029 bytes): junk runs of k x 1029 +- 1 bytes without 0xD3, ended by a frame,
+    # a lone 0xD3 or the end of input; frames of the maximum and near-maximum length, intact and with a damaged CRC
+    for k in (1, 2, 3):
+        for dlt in (-1, 0, 1):
+            j = bytes((rng.getrandbits(8) % 0xD2) for _ in range(k * 1029 + dlt))
+            tailc = rng.choice([b"", b"\xd3", gen.rand_frame(rng, small=True)])
+            streams.append((rng.choice([b"", gen.rand_frame(rng, small=True)]) + j + tailc, "around-max-frame-size"))
+    for n in (1020, 1021, 1022, 1023):
+        f = gen.make_frame(gen.payload_with_type(rng, gen.rand_type(rng), n))
+        streams.append((f + gen.rand_frame(rng, small=True), "around-max-frame-size"))
+        streams.append((gen.corrupt(rng, f, "crc") + gen.rand_frame(rng, small=True), "around-max-frame-size"))
+        streams.append((gen.rand_junk(rng) + gen.corrupt(rng, f, "bit"), "around-max-frame-size"))
     caps = [0, 1, 2, 64]
     cases = []
     for s, tag in streams:
